@@ -24,7 +24,7 @@ import copy
 from harness import gen_template as G
 
 FEATURES = ("call-in-call-expr-args", "return-in-buffering-def", "caller-in-def-nested-in-call",
-            "decorated-def-in-call")
+            "decorated-def-in-call", "nested-call-def-reached-by-outer-callee")
 # features whose defect was repaired in /repo (0522f73, d4e81ab): the generator no longer keeps away from them - they are
 # part of the main streams - and a violation they explain is NOT a recorded finding any more; their dedicated streams
 # stay as regression streams (a revert of the fix is found there first)
@@ -340,6 +340,11 @@ class Gen(G.Gen):
                 rest.insert(r.randint(0, len(rest)), node)
             else:
                 rest.insert(r.randint(0, len(rest)), ["expr", self.call_form(sc, d, 0), []])
+        if self.k.constructs.get("block") and r.random() < 0.25:
+            # a block of the template body itself (named ones are module-level callables rendered in place): the
+            # weighted choice puts most blocks deeper
+            self.budget = max(self.budget, 4)
+            rest.insert(r.randint(0, len(rest)), self.gen_block(sc))
         body = body + rest
         if index == 0:
             r.shuffle(body)
@@ -602,6 +607,71 @@ def _defs_in_call_tags(body, in_tag=False, acc=None):
     return acc
 
 
+def _defs_of_nested_calls(content, nested=False, acc=None):
+    """def nodes of the <%call>s nested in the content of a <%call> (no def in between): mako writes them into the
+    OUTER ccall as well"""
+    acc = [] if acc is None else acc
+    for n in content:
+        k = n[0]
+        if k == "def":
+            if nested:
+                acc.append(n)
+        elif k == "call":
+            _defs_of_nested_calls(n[3], True, acc)
+        elif k in ("if", "try", "for", "while"):
+            for slot in G.BODY_SLOTS[k]:
+                _defs_of_nested_calls(n[slot], nested, acc)
+    return acc
+
+
+def _callee_ids(e):
+    found = []
+    _map_ex(e, lambda x: found.append(x[1]) if x[0] in ("call", "capture") else None)
+    return found
+
+
+def _body_exprs(body):
+    """(container, key) of every expression slot of a body, through control lines, blocks and <%call> bodies (the
+    callee's own scope and what it renders in place), not nested defs"""
+    for n in body:
+        k = n[0]
+        if k in ("expr", "if", "call"):
+            yield n, 1
+        if k == "for":
+            for i in range(len(n[2])):
+                yield n[2], i
+        if k == "block":
+            yield from _body_exprs(n[4])
+        elif k != "def":
+            for slot in G.BODY_SLOTS.get(k, ()):
+                yield from _body_exprs(n[slot])
+
+
+def outer_callee_sites(bodies):
+    """[(container, key, def id)]: expression slots of the callee of a <%call> that mention `caller.<d>` for a def d
+    written in a <%call> NESTED in the content of that call (recorded quirk F-C05-5: the outer caller exports it)"""
+    defs = {}
+    for b in bodies:
+        for _, n in G.walk(b):
+            if n[0] == "def":
+                defs[n[1]] = n
+    sites = []
+    for b in bodies:
+        for _, n in G.walk(b):
+            if n[0] != "call":
+                continue
+            inner = set(d[1] for d in _defs_of_nested_calls(n[3]))
+            if not inner:
+                continue
+            for f in _callee_ids(n[1]):
+                if f not in defs:
+                    continue
+                for cont, key in _body_exprs(defs[f][4]):
+                    if _any_ex(cont[key], lambda x: x[0] == "caller" and x[1] in inner):
+                        sites.append((cont, key, inner))
+    return sites
+
+
 def features(bodies):
     """{feature name: number of sites} of the recorded quirks present in the template set"""
     res = {}
@@ -614,12 +684,17 @@ def features(bodies):
         add("return-in-buffering-def", len(_ret_sites(b)))
         add("caller-in-def-nested-in-call", len(lexical_caller_defs(b)))
         add("decorated-def-in-call", sum(1 for d in _defs_in_call_tags(b) if d[3]["deco"]))
+    add("nested-call-def-reached-by-outer-callee", len(outer_callee_sites(bodies)))
     return res
 
 
 def neutralise(bodies, feature):
     """copy of the set with every site of `feature` replaced by something harmless"""
     bodies = copy.deepcopy(bodies)
+    if feature == "nested-call-def-reached-by-outer-callee":
+        for cont, key, inner in outer_callee_sites(bodies):
+            cont[key] = _map_ex(cont[key], lambda x: ["lit", "q"] if x[0] == "caller" and x[1] in inner else None)
+        return bodies
     for b in bodies:
         if feature == "call-in-call-expr-args":
             for _, n in G.walk(b):
